@@ -343,7 +343,7 @@ def gen_bytes(rng, maxlen):
 
 def gen_cases(tier, rng):
     if tier == "quick":
-        n = {"tx": 24, "rx": 32, "glue": 6}
+        n = {"tx": 14, "rx": 18, "glue": 3}
     elif tier == "widen":
         n = {"tx": 60, "rx": 80, "glue": 10}
     else:
